@@ -166,9 +166,23 @@ static void do_mt(vf_case *c) {
 	bn_add(t, r[0], r[1]); bn_mod(t, t, ord); mpz_t a, b, m, q; mpz_inits(a, b, m, q, NULL); vf_bn_get(a, X); vf_bn_get(b, Y); vf_bn_get(q, ord); mpz_mul(a, a, b); mpz_mod(a, a, q); vf_bn_get(m, t); CHECK(!mpz_cmp(a, m), "multiplication triple protocol: shares do not add to x y mod q"); mpz_clears(a, b, m, q, NULL);
 }
 
+/* sok: cid, id index a, id index b, key length: both parties of the Sakai-Ohgishi-Kasahara key agreement derive the same key; a third identity derives another */
+static const char *IDS[] = {"Alice", "Bob", "Al", "Alicf", "alice", "A", "node-1", "node-10", "node-2", "Bob ", "", "Alice@example.org"};
+static void do_sok(vf_case *c) {
+	long cid = mpz_get_si(c->v[0]); int ia = (int)mpz_get_si(c->v[1]), ib = (int)mpz_get_si(c->v[2]); size_t kl = mpz_get_ui(c->v[3]); if (!select_pc(cid)) { vf_fail(NULL, "parameter set refused"); return; } int th, v; seed_drbg(3);
+	bn_t master; bn_new(master); sokaka_t ka, kb, kc; sokaka_null(ka); sokaka_null(kb); sokaka_null(kc); sokaka_new(ka); sokaka_new(kb); sokaka_new(kc); VF_TRY(th, v = cp_sokaka_gen(master)); if (th || v != RLC_OK) { vf_fail(NULL, "cp_sokaka_gen failed"); return; }
+	VF_TRY(th, v = cp_sokaka_gen_prv(ka, IDS[ia], master)); int ea = th || v != RLC_OK; VF_TRY(th, v = cp_sokaka_gen_prv(kb, IDS[ib], master)); int eb = th || v != RLC_OK; if (ea || eb) { if (!IDS[ia][0] || !IDS[ib][0]) { vf_stat_add("x.sok_empty_identity_refused", 1); return; } vf_fail(NULL, "cp_sokaka_gen_prv failed"); return; }
+	uint8_t k1[80], k2[80], k3[80]; memset(k1, 0xA5, sizeof k1); memset(k2, 0x5A, sizeof k2); VF_TRY(th, v = cp_sokaka_key(k1, kl, IDS[ia], ka, IDS[ib])); int e1 = th || v != RLC_OK; VF_TRY(th, v = cp_sokaka_key(k2, kl, IDS[ib], kb, IDS[ia])); int e2 = th || v != RLC_OK;
+	if (!strcmp(IDS[ia], IDS[ib])) { CHECK(e1 && e2, "cp_sokaka_key accepts two equal identities (documented as invalid)"); return; }
+	CHECK(!e1 && !e2, "cp_sokaka_key failed for the identities \"%s\" and \"%s\"", IDS[ia], IDS[ib]); if (e1 || e2) return;
+	CHECK(!memcmp(k1, k2, kl), "SOK key agreement: \"%s\" and \"%s\" derive different keys", IDS[ia], IDS[ib]); for (int i = 0; i < 8; i++) if (k1[kl + i] != 0xA5) { vf_fail(NULL, "cp_sokaka_key wrote beyond the requested key length"); break; }
+	/* a third party with its own key does not get the same key */
+	int ic = (ia + ib + 1) % 10; if (ic != ia && ic != ib && IDS[ic][0] && kl >= 16) { VF_TRY(th, v = cp_sokaka_gen_prv(kc, IDS[ic], master)); VF_TRY(th, v = cp_sokaka_key(k3, kl, IDS[ic], kc, IDS[ib])); if (!th && v == RLC_OK) CHECK(memcmp(k3, k1, kl) != 0, "SOK: a third identity derives the key shared by two others"); }
+}
+
 static void run_case(vf_case *c) {
 	vf_nontrivial(); if (!vf_replaying) vf_stat_add("states", 1);
-	if (!strcmp(c->op, "rsa")) do_rsa(c); else if (!strcmp(c->op, "he")) do_he(c); else if (!strcmp(c->op, "ec")) do_ec(c); else if (!strcmp(c->op, "pe")) do_pe(c); else if (!strcmp(c->op, "sss")) do_sss(c); else if (!strcmp(c->op, "mt")) do_mt(c); else vf_fail(NULL, "unknown op");
+	if (!strcmp(c->op, "rsa")) do_rsa(c); else if (!strcmp(c->op, "he")) do_he(c); else if (!strcmp(c->op, "ec")) do_ec(c); else if (!strcmp(c->op, "pe")) do_pe(c); else if (!strcmp(c->op, "sss")) do_sss(c); else if (!strcmp(c->op, "mt")) do_mt(c); else if (!strcmp(c->op, "sok")) do_sok(c); else vf_fail(NULL, "unknown op");
 }
 static vf_case K;
 static void enumerate(void) {
@@ -180,6 +194,7 @@ static void enumerate(void) {
 			static const long KL[] = {1, 16, 32, 33, 64, 65}; for (int kind = 1; kind <= 2; kind++) for (int ki = 0; ki < 6; ki++) for (int s2 = 0; s2 < (vf_tier ? 16 : 6); s2++) if (vf_mine()) { K.op = "ec"; K.n = 4; mpz_set_si(K.v[0], kind); mpz_set_si(K.v[1], EC[ci]); mpz_set_si(K.v[2], sd * 10 + s2); mpz_set_si(K.v[3], KL[ki]); vf_run(&K); } } vf_bound_done("ecies-ecdh-ecmqv"); }
 	if (vf_bound_on("pairing-encryption")) { for (unsigned ci = 0; ci < 2; ci++) { for (long len = 0; len <= 40; len += (vf_tier ? 1 : 4)) if (vf_mine()) { K.op = "pe"; K.n = 4; mpz_set_si(K.v[0], 0); mpz_set_si(K.v[1], PC[ci]); mpz_set_si(K.v[2], 0); mpz_set_si(K.v[3], len); vf_run(&K); }
 			for (long par = 0; par < 17 * 17; par += (vf_tier ? 1 : 7)) if (vf_mine()) { K.op = "pe"; K.n = 4; mpz_set_si(K.v[0], 1); mpz_set_si(K.v[1], PC[ci]); mpz_set_si(K.v[2], 0); mpz_set_si(K.v[3], par); vf_run(&K); } } vf_bound_done("pairing-encryption"); }
+	if (vf_bound_on("sok-key-agreement")) { for (unsigned ci = 0; ci < 2; ci++) for (int a = 0; a < 12; a++) for (int b = 0; b < 12; b++) { if (!vf_tier && ci && (a + b) % 3) continue; if (vf_mine()) { K.op = "sok"; K.n = 4; mpz_set_si(K.v[0], PC[ci]); mpz_set_si(K.v[1], a); mpz_set_si(K.v[2], b); mpz_set_si(K.v[3], (a * 7 + b) % 3 == 0 ? 16 : (a + b) % 2 ? 32 : 33); vf_run(&K); } } vf_bound_done("sok-key-agreement"); }
 	if (vf_bound_on("sharing")) { for (long n = 1; n <= 5; n++) for (long k = 1; k <= n; k++) for (int sel = 0; sel < 4; sel++) for (int sd = 0; sd < (vf_tier ? 3 : 1); sd++) if (vf_mine()) { K.op = "sss"; K.n = 4; mpz_set_si(K.v[0], k); mpz_set_si(K.v[1], n); mpz_set_si(K.v[2], sel); mpz_set_si(K.v[3], sd); vf_run(&K); }
 		for (int sx = 0; sx < 4; sx++) for (int sy = 0; sy < 4; sy++) for (int sd = 0; sd < (vf_tier ? 4 : 2); sd++) if (vf_mine()) { K.op = "mt"; K.n = 3; mpz_set_si(K.v[0], sx); mpz_set_si(K.v[1], sy); mpz_set_si(K.v[2], sd); vf_run(&K); } vf_bound_done("sharing"); }
 	vf_stat_add("transitions", transitions); vf_stat_add("x.verdicts_judged", njudged);
